@@ -91,6 +91,10 @@ def main() -> int:
         if not ck.analysed and undecided:
             ck.analysed_fn(*[q for q in repo.functions if any(q.startswith(a) for a in ANCHOR_MODULES.get(pid, []))])
         hygiene.run(ck, repo)
+        # indirection inventory (decorators, overrides, special methods, class options, import-time statements) of the
+        # same scope: a deviation from the confirmed inventory is an undecided clause, never a silent pass
+        from sa import inventory
+        inventory.run(ck, repo, ck.extra.pop("hygiene_scope_resolved", []))
         undecided += [f"{pid}: {d}" if not re.match(r"C\d\d: ", d) else d for d in ck.deferred]
         code = ck.finish()
         if undecided and code == 0:
